@@ -112,7 +112,8 @@ CHECKS = [
           'trajectories that undo information exists for every height in (tip-L, tip], that after a restart nothing '
           'older remains and the window is intact, and that the real backup_block succeeds for exactly min(L, k-1) '
           'blocks and then refuses with ChainError.  CRASHWIN: the same window after a crash at a symbolic durable operation, '
-          'restart and resume (reorg limit concrete).',
+          'restart and resume (reorg limit concrete).  SHELLWIN: daemon-driven reorganisations exactly as deep as the limit '
+          '(1, 2, 4; thorough also 3, 8) through the real asynchronous shell.',
   'note': 'Trusted: as C01.  Only comparisons are involved, so paths partition the integers by order type; k <= 3 '
           '(quick) / 5 (thorough) blocks.',
   'design_ref': 'DESIGN.md section 4, C15'},
@@ -236,7 +237,8 @@ CHECKS = [
           'worker jobs run in real threads that park at every durable storage operation, each continuation being a gate, '
           'so a cancelled job can still be running while the shutdown path flushes; in the read-preemption scenarios '
           'the jobs also park at every store read, i.e. shutdown can land while a block is half advanced; cache-pressure '
-          'flush requests are injected at block boundaries; a second deviation may postpone any gate.  After the task returned and the remaining threads finished, the database is reopened: stored height == '
+          'flush requests are injected at block boundaries; one story keeps the real OnDiskBlock prefetcher (shutdown while '
+          'downloads are in flight); a second deviation may postpone any gate.  After the task returned and the remaining threads finished, the database is reopened: stored height == '
           'height of the last completed block, index == reference at that height.',
   'note': 'Preemption granularity is one storage operation (writes everywhere, reads in the marked scenarios).  Counterexample schedules are replayed natively with '
           'real threads on real LevelDB.  Stubs as C07 (sessions and mempool not started).',
